@@ -1419,10 +1419,12 @@ def _set_default_constants(**kwargs):
         constants[Constants.IMPROVE_TCG]
     )
 
-    # Check whether they are any unknown options.
+    # Check whether they are any unknown options. They are not kept, because
+    # the constants are forwarded as keyword arguments to the subsolvers.
     for key in kwargs:
         if key not in Constants.__members__.values():
             warnings.warn(f"Unknown constant: {key}.", RuntimeWarning, 3)
+            constants.pop(key)
     return constants
 
 
